@@ -84,7 +84,8 @@ def world(I, weights_at=3, owner_choice=False):
 
 
 OPS = ['create_position', 'expand_position', 'close_full', 'close_partial', 'withdraw_unlocked', 'emergency_open', 'emergency_closed', 'claim', 'claim_until',
-       'create_farm', 'expand_farm', 'close_farm', 'close_lp_reward_farm', 'expand_by_pool_manager', 'create_by_pool_manager', 'close_one_of_two', 'create_farm_fee_denom']
+       'create_farm', 'expand_farm', 'close_farm', 'close_lp_reward_farm', 'expand_by_pool_manager', 'create_by_pool_manager', 'close_one_of_two', 'create_farm_fee_denom',
+       'create_farm_zero_fee']
 
 
 def run(I, ch, b, op, v):
@@ -134,6 +135,13 @@ def run(I, ch, b, op, v):
         paid = I.sym('paid_fee_denom', lo=1, hi=U128 // 32)
         b.set('dave', 'uom', paid)
         return ch.execute('dave', FM, manage_farm('Create', params=farm_params(LP1, coin_v('uom', amt), E + 1, E + 5)), [coin_v('uom', paid)])
+    if op == 'create_farm_zero_fee':
+        # the owner has configured a ZERO creation fee: only the reward coin is attached -- of an arbitrary amount, for a declared reward `amt`
+        I.assume(amt >= 1000)
+        fm_config(I, fee=coin_v('uom', 0), max_concurrent=3)
+        paid = I.sym('paid_zero_fee', lo=1, hi=U128 // 32)
+        b.set('dave', 'uusd', paid)
+        return ch.execute('dave', FM, manage_farm('Create', params=farm_params(LP1, coin_v('uusd', amt), E + 1, E + 5)), [coin_v('uusd', paid)])
     if op == 'expand_farm':
         add = simp(v['rate'] * 2)                  # attached: two more epochs of emission
         decl = simp(v['rate'] * I.sym('declared_epochs', lo=1, hi=1000))        # declared in the message: any multiple of the rate
@@ -226,6 +234,11 @@ def _build(op):
             d['mints'].append(('dave', [('uom', m['paid_fee_denom'])]))
             d['txs'] = [('dave', Fm('create', params={'lp_denom': rj(LP1), 'start_epoch': E + 1, 'preliminary_end_epoch': E + 5, 'curve': None,
                                                       'farm_asset': coin_j('uom', a), 'farm_identifier': None}), [('uom', m['paid_fee_denom'])])]
+        elif op == 'create_farm_zero_fee':
+            d['config'] = dict(d['config'], create_farm_fee={'denom': 'uom', 'amount': '0'})
+            d['mints'].append(('dave', [('uusd', m['paid_zero_fee'])]))
+            d['txs'] = [('dave', Fm('create', params={'lp_denom': rj(LP1), 'start_epoch': E + 1, 'preliminary_end_epoch': E + 5, 'curve': None,
+                                                      'farm_asset': coin_j('uusd', a), 'farm_identifier': None}), [('uusd', m['paid_zero_fee'])])]
         elif op == 'expand_farm':
             d['mints'].append(('fowner', [('uusd', rate * 2)]))
             d['txs'] = [('fowner', Fm('expand', params={'lp_denom': rj(LP1), 'start_epoch': None, 'preliminary_end_epoch': None, 'curve': None,
